@@ -19,7 +19,10 @@ pub const SLOW_G: f64 = 2.2;
 fn slow_cmd(kind: char, id: &str, marks: &Path) -> String {
     // every other slow command ignores SIGTERM: being aborted must not depend on the cooperation of the shell
     let stubborn = id.bytes().last().map_or(false, |b| b % 2 == 1);
-    format!("{}sleep {}; echo {} >> {}", if stubborn { "trap '' TERM; " } else { "" }, if kind == 'T' { SLOW_T } else { SLOW_G }, id, marks.with_file_name("late").display())
+    // one per-test-limited command in three would end 50 ms AFTER its limit of 400 ms: it has run into the limit all the same (the
+    // limit counts from the start of the shell, the sleep starts later) -- a timeout, not a command cut short and taken for finished
+    let near = kind == 'T' && id.bytes().last().map_or(false, |b| b % 3 == 0);
+    format!("{}sleep {}; echo {} >> {}", if stubborn { "trap '' TERM; " } else { "" }, if near { 0.45 } else if kind == 'T' { SLOW_T } else { SLOW_G }, id, marks.with_file_name("late").display())
 }
 
 fn render_md(d: &Doc, di: usize, marks: &Path) -> String {
